@@ -535,7 +535,7 @@ type failure struct {
 
 type runner struct {
 	sum        *hx.Summary
-	cases      []caseOut
+	cands      []cand
 	fails      []failure
 	skipLayout int
 	skipShape  int
@@ -544,20 +544,94 @@ type runner struct {
 	unknownMsg map[string]bool
 	nontrivial map[string]bool
 	perSection map[string]int
+	pool       []string // case labels of parse.go
+	poolAll    bool
+}
+
+// baseOracle: on an unmutated workflow the keys reported as unexpected are
+// exactly the keys outside the documented key set of their section (first
+// occurrences), each at the key.
+func (r *runner) baseOracle(name string, src []byte, sites []site, orig parseResult) {
+	want := map[[2]int]string{}
+	for _, s := range sites {
+		if !s.sec.closed || s.sec.special == "schedule-item" {
+			continue
+		}
+		seen := map[string]bool{}
+		for i := 0; i+1 < len(s.m.Content); i += 2 {
+			k := s.m.Content[i]
+			id := k.Value
+			if k.Kind != yaml.ScalarNode {
+				id = ""
+			}
+			if seen[id] {
+				continue
+			}
+			seen[id] = true
+			if _, ok := s.sec.keys[id]; !ok {
+				want[[2]int{k.Line, k.Column}] = s.sec.name + "." + id
+			}
+		}
+	}
+	got := map[[2]int]bool{}
+	for _, d := range orig.diags {
+		if d.Code == 1 {
+			got[[2]int{d.Line, d.Col}] = true
+		}
+	}
+	for p, w := range want {
+		if !got[p] {
+			r.fails = append(r.fails, failure{"key outside the documented key set is not reported at the key", "base-unknown-not-reported|" + w, name, nil, string(src), string(src), map[string]interface{}{"at": p, "key": w, "diags": orig.diags}})
+		}
+	}
+	for p := range got {
+		if _, ok := want[p]; !ok {
+			key := ""
+			for _, s := range sites {
+				for i := 0; i+1 < len(s.m.Content); i += 2 {
+					if k := s.m.Content[i]; k.Line == p[0] && k.Column == p[1] {
+						key = s.sec.name + "." + k.Value
+					}
+				}
+			}
+			r.fails = append(r.fails, failure{"a key of the documented key set is reported as unexpected", "base-documented-key-reported|" + key, name, nil, string(src), string(src), map[string]interface{}{"at": p, "key": key, "diags": orig.diags}})
+		}
+	}
 }
 
 func (r *runner) addCase(name string, src []byte, doc *yaml.Node, res parseResult, mu *mutation) {
+	group := "base"
+	if mu != nil {
+		group = mu.Section + ":" + mu.Kind
+	}
+	r.cands = append(r.cands, cand{name, src, res, mu, group, countNodes(doc)})
+}
+
+type cand struct {
+	name  string
+	src   []byte
+	res   parseResult
+	mu    *mutation
+	group string
+	nodes int
+}
+
+func (r *runner) render(c cand) (caseOut, bool) {
+	var doc yaml.Node
+	if err := yaml.Unmarshal(c.src, &doc); err != nil {
+		return caseOut{}, false
+	}
 	var sb strings.Builder
-	if !coqNode(doc, &sb) {
+	if !coqNode(&doc, &sb) {
 		r.sum.Dist["not-dumpable"]++
-		return
+		return caseOut{}, false
 	}
 	ts := []string{}
-	for _, d := range res.diags {
+	for _, d := range c.res.diags {
 		ts = append(ts, d.tuple())
 	}
 	term := "(" + sb.String() + ", [" + strings.Join(ts, ";") + "])"
-	r.cases = append(r.cases, caseOut{term, map[string]interface{}{"file": name, "mutation": mu, "source": string(src), "diags": res.diags}, countNodes(doc)})
+	return caseOut{term, map[string]interface{}{"file": c.name, "mutation": c.mu, "source": string(c.src), "diags": c.res.diags}, c.nodes}, true
 }
 
 func diagMultiset(ds []pdiag) map[string]int {
@@ -756,6 +830,7 @@ func (r *runner) base(name string, src []byte, wantCases func(mu *mutation) bool
 	walk(&doc, nil, &all)
 	td := newTextDoc(src)
 	sites := specSites(&doc)
+	r.baseOracle(name, src, sites, orig)
 	for _, s := range sites {
 		keys := keysOf(s.m)
 		n := len(keys)
@@ -763,6 +838,16 @@ func (r *runner) base(name string, src []byte, wantCases func(mu *mutation) bool
 		if s.sec.closed {
 			for j := 0; j <= n; j++ {
 				mus = append(mus, mutation{Kind: "foreign", Section: s.sec.name, Path: s.path, Index: j, Key: "zz-foreign-key"})
+			}
+			// keys that parse.go accepts somewhere (case labels extracted from its
+			// source) but that the syntax does not allow in this section
+			if r.poolAll || strings.HasPrefix(name, "synthetic/0") {
+				for _, lab := range r.pool {
+					if _, ok := s.sec.keys[lab]; ok || countOf(keys, lab) > 0 || s.sec.special == "schedule-item" {
+						continue
+					}
+					mus = append(mus, mutation{Kind: "foreign", Section: s.sec.name, Path: s.path, Index: n, Key: lab})
+				}
 			}
 		}
 		for i, k := range keys {
@@ -794,10 +879,11 @@ func (r *runner) base(name string, src []byte, wantCases func(mu *mutation) bool
 				if coll {
 					continue
 				}
-				for _, j := range []int{n, i + 1} {
-					if j == i+1 && j == n {
-						continue
-					}
+				js := []int{n}
+				if i+1 != n {
+					js = append(js, i+1)
+				}
+				for _, j := range js {
 					mus = append(mus, mutation{Kind: "dup", Section: s.sec.name, Path: s.path, Index: j, Key: kk, Of: i, Spell: sp})
 				}
 			}
@@ -899,6 +985,19 @@ func main() {
 
 	r := &runner{sum: hx.NewSummary("C13"), unknownMsg: map[string]bool{}, nontrivial: map[string]bool{}, perSection: map[string]int{}}
 	rng := hx.NewRng(*seed)
+	r.poolAll = *tier == "thorough"
+	if gs, _, err := extractFile(filepath.Join(*repo, "parse.go")); err == nil {
+		seenLab := map[string]bool{}
+		for _, g := range gs {
+			for _, l := range g.labels {
+				if !seenLab[l] && !strings.HasPrefix(l, "<") {
+					seenLab[l] = true
+					r.pool = append(r.pool, l)
+				}
+			}
+		}
+		sort.Strings(r.pool)
+	}
 
 	type input struct {
 		name string
@@ -920,51 +1019,58 @@ func main() {
 		}
 	}
 
-	// Coq cases: every base tree, every mutant of the synthetic workflows, and a
-	// seeded sample of the other mutants (all of them in the thorough tier).
-	sampleDen := 12
-	if *tier == "thorough" {
-		sampleDen = 1
-	}
 	for _, in := range inputs {
-		synth := strings.HasPrefix(in.name, "synthetic/")
-		r.base(in.name, in.src, func(mu *mutation) bool {
-			if mu == nil || synth {
-				return true
-			}
-			return rng.Intn(sampleDen) == 0
-		})
+		r.base(in.name, in.src, func(mu *mutation) bool { return true })
 	}
 
-	// budget: keep at most n cases (all base trees and synthetic first), drop trees that are too large
+	// Coq cases: every base tree, then mutants taken round-robin over the
+	// groups (section, mutation kind) in a seeded order, synthetic workflows
+	// first, until n cases are selected (thorough: n is large, all are taken).
+	groups := map[string][]cand{}
 	var kept []caseOut
-	for _, c := range r.cases {
-		if c.nodes <= *maxNodes {
-			kept = append(kept, c)
-		} else {
+	emit := func(c cand) {
+		if c.nodes > *maxNodes {
 			r.sum.Dist["case-too-large"]++
+			return
+		}
+		if co, ok := r.render(c); ok {
+			kept = append(kept, co)
 		}
 	}
-	if len(kept) > *n {
-		// keep bases + synthetic, sample the rest
-		var first, rest []caseOut
-		for _, c := range kept {
-			f := c.source["file"].(string)
-			if c.source["mutation"].(*mutation) == nil || strings.HasPrefix(f, "synthetic/") {
-				first = append(first, c)
-			} else {
-				rest = append(rest, c)
-			}
+	for _, c := range r.cands {
+		if c.mu == nil {
+			emit(c)
+		} else {
+			groups[c.group] = append(groups[c.group], c)
 		}
-		perm := rng.Perm(len(rest))
-		kept = first
+	}
+	gnames := hx.SortedKeys(groups)
+	for _, g := range gnames {
+		cs := groups[g]
+		perm := rng.Perm(len(cs))
+		var syn, rest []cand
 		for _, i := range perm {
-			if len(kept) >= *n {
-				break
+			if strings.HasPrefix(cs[i].name, "synthetic/") {
+				syn = append(syn, cs[i])
+			} else {
+				rest = append(rest, cs[i])
 			}
-			kept = append(kept, rest[i])
+		}
+		groups[g] = append(syn, rest...)
+	}
+	for round := 0; len(kept) < *n; round++ {
+		any := false
+		for _, g := range gnames {
+			if round < len(groups[g]) && len(kept) < *n {
+				emit(groups[g][round])
+				any = true
+			}
+		}
+		if !any {
+			break
 		}
 	}
+	_ = tier
 
 	cf, err := os.Create(filepath.Join(*out, "cases.txt"))
 	hx.Must(err)
@@ -1022,7 +1128,7 @@ func doReplay(path string) int {
 		}
 		return 1
 	}
-	fmt.Printf("property C13, %s\nfile %s, mutation %+v\n", f.What, f.File, *f.Mutation)
+	fmt.Printf("property C13, %s\nfile %s, mutation %+v\n", f.What, f.File, f.Mutation)
 	o := runParse([]byte(f.Original))
 	m := runParse([]byte(f.Mutant))
 	fmt.Printf("--- original\n%s--- diagnostics of the original (class, line, col)\n%+v\n", f.Original, o.diags)
@@ -1030,7 +1136,7 @@ func doReplay(path string) int {
 	r := &runner{sum: hx.NewSummary("C13"), unknownMsg: map[string]bool{}, nontrivial: map[string]bool{}, perSection: map[string]int{}}
 	r.base(f.File, []byte(f.Original), func(*mutation) bool { return false })
 	for _, g := range r.fails {
-		if g.Mutant == f.Mutant {
+		if g.Mutant == f.Mutant && g.What == f.What {
 			fmt.Printf("REPRODUCED: %s\n", g.What)
 			return 1
 		}
